@@ -1600,26 +1600,50 @@ func (c *vCluster) tick(i, j int) {
 	c.finish(e)
 }
 
-func (c *vCluster) feedbackSafe(m vMsg, why *string) bool {
-	// window avoidance for masked schedules: would this feedback mark an operation recovered
-	// (a) over a different operation of the key, (b) while some node still lacks it?
+// fbClass: would this feedback make a recovered mark reach the threshold (a) while the key's
+// store entry holds a DIFFERENT, still infected operation ("stale": before the repair of
+// store.go the mark replaced that entry, now it is skipped), (b) while some node still lacks
+// the operation ("premature" SIR removal; judged for marks that apply to their own entry)?
+func (c *vCluster) fbClass(m vMsg) (stale, premature bool) {
+	sk, pk := c.fbClassKeys(m)
+	return len(sk) > 0, len(pk) > 0
+}
+
+func (c *vCluster) fbClassKeys(m vMsg) (staleKeys, prematureKeys []string) {
 	for _, o := range c.absOps(m.Ops) {
 		if c.reps[m.To-1][fmt.Sprintf("%s/%d", o.K, o.Ver)] > c.w.thr {
+			other := false
 			inf, _ := c.infected(m.To)
 			for _, p := range inf {
 				if string(p.Key) == o.K && (int64(p.Version) != o.Ver || int(p.Leaseholder) != o.Lh) {
-					*why = "stalefb"
-					return false
+					other = true
 				}
+			}
+			if other {
+				staleKeys = append(staleKeys, o.K)
+				continue
 			}
 			for i := 1; i <= c.n; i++ {
 				d, _, _ := vProject(c.w.nodes[i].eng, o.K)
 				if d.Var == "none" || vNewer(o.dig(), d) {
-					*why = "premature"
-					return false
+					prematureKeys = append(prematureKeys, o.K)
+					break
 				}
 			}
 		}
+	}
+	return
+}
+
+// masked schedules do not step into premature removal; stale marks are delivered (repaired).
+func (c *vCluster) feedbackSafe(m vMsg, why *string) bool {
+	stale, premature := c.fbClass(m)
+	if premature {
+		*why = "premature"
+		return false
+	}
+	if stale {
+		*why = "stalefb"
 	}
 	return true
 }
@@ -1680,6 +1704,15 @@ func (c *vCluster) deliver(idx int) {
 		c.stats["rejected"] += len(rej)
 		c.finish(e)
 	case "fb":
+		staleKeys, prematureKeys := c.fbClassKeys(m)
+		stale := len(staleKeys) > 0
+		for _, k := range staleKeys {
+			c.taints["stalefb"], c.taints["stalefb:"+k] = true, true
+			c.stats["stalefb_hits"]++
+		}
+		for _, k := range prematureKeys {
+			c.taints["premature"], c.taints["premature:"+k] = true, true
+		}
 		var hits []vOp
 		for _, o := range abs {
 			key := fmt.Sprintf("%s/%d", o.K, o.Ver)
@@ -1696,7 +1729,25 @@ func (c *vCluster) deliver(idx int) {
 			c.broken = "feedback: " + err.Error()
 			return
 		}
-		if len(hits) > 0 {
+		if len(hits) > 0 && stale {
+			// the mark is skipped on a repaired tree (nothing to wait for) and un-infects the newer
+			// operation on an unrepaired one: give that a moment to show, without a verdict here
+			c.stats["recovered"] += len(hits)
+			vWait(func() bool {
+				inf, err := c.infected(m.To)
+				if err != nil {
+					return true
+				}
+				for _, h := range hits {
+					for _, p := range inf {
+						if string(p.Key) == h.K {
+							return false
+						}
+					}
+				}
+				return true
+			}, 50*time.Millisecond)
+		} else if len(hits) > 0 {
 			c.stats["recovered"] += len(hits)
 			vBarrier(func() bool {
 				inf, err := c.infected(m.To)
@@ -1910,12 +1961,8 @@ func (c *vCluster) quiesce(masked bool) {
 	}
 }
 
-func (c *vCluster) noteFbTaint(m vMsg) {
-	why := ""
-	if !c.feedbackSafe(m, &why) {
-		c.taints[why] = true
-	}
-}
+// taints are recorded by deliver itself (fbClass); kept for the call sites
+func (c *vCluster) noteFbTaint(_ vMsg) {}
 
 func vInt(m map[string]any, k string) int {
 	f, _ := m[k].(float64)
@@ -2042,12 +2089,9 @@ func (c *vCluster) runRandom(rnd *rand.Rand, steps int, masked bool) {
 			m := c.net[idx]
 			if m.T == "fb" && c.w.nodes[m.To].up {
 				why := ""
-				if !c.feedbackSafe(m, &why) {
-					if masked {
-						c.drop(idx)
-						continue
-					}
-					c.taints[why] = true
+				if !c.feedbackSafe(m, &why) && masked {
+					c.drop(idx)
+					continue
 				}
 			}
 			c.deliver(idx)
